@@ -179,18 +179,51 @@ struct RunResult {
 }
 
 fn run_samedec(args: &[String], stdin_file: Option<&Path>, timeout: Duration) -> RunResult {
+    run_samedec_piped(args, stdin_file, None, timeout)
+}
+
+/// `pipe_chunks`: feed `stdin_file` through a pipe in chunks of these sizes (cycled), pausing after each of
+/// the first chunks so that samedec drains the pipe at that byte offset (short reads, odd offsets)
+fn run_samedec_piped(args: &[String], stdin_file: Option<&Path>, pipe_chunks: Option<Vec<usize>>, timeout: Duration) -> RunResult {
     let mut cmd = Command::new(samedec_bin());
     cmd.args(args).stdout(Stdio::piped()).stderr(Stdio::null());
-    match stdin_file {
-        Some(p) => {
+    match (stdin_file, &pipe_chunks) {
+        (Some(_), Some(_)) => {
+            cmd.stdin(Stdio::piped());
+        }
+        (Some(p), None) => {
             cmd.stdin(Stdio::from(std::fs::File::open(p).unwrap()));
         }
-        None => {
+        (None, _) => {
             cmd.stdin(Stdio::null());
         }
     }
     let t0 = Instant::now();
     let mut child = cmd.spawn().expect("cannot start samedec (build it first: ./check setup)");
+    let writer = match (stdin_file, pipe_chunks) {
+        (Some(p), Some(chunks)) => {
+            let data = std::fs::read(p).unwrap();
+            let mut pipe = child.stdin.take().unwrap();
+            Some(std::thread::spawn(move || {
+                use std::io::Write;
+                let mut pos = 0usize;
+                let mut k = 0usize;
+                while pos < data.len() {
+                    let n = chunks[k % chunks.len()].max(1).min(data.len() - pos);
+                    if pipe.write_all(&data[pos..pos + n]).is_err() {
+                        break;
+                    }
+                    let _ = pipe.flush();
+                    pos += n;
+                    if k < 12 {
+                        std::thread::sleep(Duration::from_millis(120));
+                    }
+                    k += 1;
+                }
+            }))
+        }
+        _ => None,
+    };
     let mut out = child.stdout.take().unwrap();
     let reader = std::thread::spawn(move || {
         let mut s = String::new();
@@ -214,6 +247,9 @@ fn run_samedec(args: &[String], stdin_file: Option<&Path>, timeout: Duration) ->
         }
     };
     let stdout = reader.join().unwrap_or_default();
+    if let Some(w) = writer {
+        let _ = w.join();
+    }
     RunResult { stdout, status, wall: t0.elapsed(), timed_out }
 }
 
@@ -254,7 +290,13 @@ pub fn run_app(ctx: &Ctx) {
         let quiet = i % 7 == 6;
         let with_child = i % 2 == 1;
         let verbose = (i / 3) % 4;
-        let via_stdin = i % 5 == 4;
+        let via_stdin = i % 5 == 4 || i % 5 == 2;
+        // every other stdin case comes through a pipe in odd- and even-sized chunks with pauses
+        let pipe_chunks: Option<Vec<usize>> = if i % 5 == 2 {
+            Some((0..8).map(|_| if rng.chance(1, 2) { 2 * rng.range(1, 30000) as usize + 1 } else { rng.range(1, 70000) as usize }).collect())
+        } else {
+            None
+        };
         let cdir = dir.join(format!("children{}", i));
         std::fs::create_dir_all(&cdir).unwrap();
         let mut args: Vec<String> = vec!["--rate".into(), rate.to_string()];
@@ -280,10 +322,11 @@ pub fn run_app(ctx: &Ctx) {
             (n.year(), n.ordinal())
         };
         let clock_before = clock();
-        let res = run_samedec(&args, if via_stdin { Some(&raw) } else { None }, Duration::from_secs(120));
+        let piped = pipe_chunks.is_some();
+        let res = run_samedec_piped(&args, if via_stdin { Some(&raw) } else { None }, pipe_chunks, Duration::from_secs(120));
         let clock_after = clock();
         let mut env_ops: Vec<(String, String)> = vec![];
-        let label = format!("app.{}.rate{}.q{}.c{}.v{}.stdin{}", rec.label, rate, quiet as u8, with_child as u8, verbose, via_stdin as u8);
+        let label = format!("app.{}.rate{}.q{}.c{}.v{}.stdin{}", rec.label, rate, quiet as u8, with_child as u8, verbose, via_stdin as u8 + piped as u8);
         // children as recorded
         let mut kids: Vec<String> = vec![];
         let mut envs: Vec<String> = vec![];
